@@ -54,7 +54,14 @@ fn expect_reject(ev: &mut Ev, text: &str, accepted: &[Cause]) -> CaseResult {
         )
         .into()),
         Err(e) => match cause_of(&e) {
-            Some(c) if accepted.contains(&c) => Ok(()),
+            Some(c) if accepted.contains(&c) => {
+                if let Cause::Missing(v) = c {
+                    ev.eval();
+                    ev.count("error-text/missing-variable-named");
+                    crate::mon::c07::text_names_only(&e.to_string(), v, true)?;
+                }
+                Ok(())
+            }
             Some(c) => Err(format!(
                 "rejected with {} but the cause present is {}",
                 c.name(),
@@ -650,10 +657,20 @@ pub fn run(cx: &mut Cx) {
                     }
                     // is_completed() is asked after every call on the way: it
                     // must follow the calls made so far, whatever it answered before
-                    let mut sum = Summary::new();
+                    // three ways to the empty entry / through the calls: new(),
+                    // default(), and a clone taken half way
+                    let route = case % 3;
+                    ev.count(&format!("subsets/route/{}", ["new", "default", "clone-midway"][route as usize]));
+                    let mut sum = if route == 1 { Summary::default() } else { Summary::new() };
                     let mut cur = Entry::new();
                     let mut was = false;
+                    if sum.is_completed() {
+                        return Err("is_completed() = true on an empty entry".to_string().into());
+                    }
                     for (k, op) in ops.iter().enumerate() {
+                        if route == 2 && k == ops.len() / 2 {
+                            sum = sum.clone();
+                        }
                         apply(&mut sum, op);
                         match op {
                             gs::Op::Set(v, val) => cur.set(*v, val.clone()),
